@@ -24,6 +24,7 @@ Print Assumptions C19_frame_admits.
 (* the receiver's decoder never sees more than maxLen bytes, and what it returns does not depend on anything beyond them *)
 Theorem C19_read_bounded : forall maxLen (stream : bytes), length (firstn maxLen stream) <= maxLen.
 Proof. exact frame_bounded. Qed.
+Print Assumptions C19_read_bounded.
 Theorem C19_read_ignores_beyond : forall (recog : string -> bytes -> option (bytes * bytes)) maxLen s s1 s2, firstn maxLen s1 = firstn maxLen s2 ->
   read_limited recog maxLen s s1 = read_limited recog maxLen s s2.
 Proof. exact frame_ignores_beyond. Qed.
@@ -55,6 +56,7 @@ Print Assumptions C19_response_delivered.
    own maxLen() values), and an error with a description of up to ERRDESC bytes fits every response limit *)
 Theorem C19_limits_admit_all : failing_objects = [].
 Proof. exact limits_admit_all. Qed.
+Print Assumptions C19_limits_admit_all.
 Theorem C19_error_fits : match object_size "rhp/v4.RPCError" [ERRDESC] with Some sz => (sz <=? ERRMAX)%N | None => false end = true.
 Proof. exact error_fits. Qed.
 Print Assumptions C19_error_fits.
